@@ -167,8 +167,14 @@ def impl_run(TableBundle, NotUnique, blocks, as_df, qs, n):
     """Build the real bundle and answer the queries.  Objects are reported as identity tokens: block index i for the
     block value itself, i + DF for its `.df` (a value occurring in several blocks gets the indices in order)."""
     try:
+        # the blocks come as a one-shot iterator, a generator, a list or a tuple; when frames are requested also as a
+        # generator that builds a fresh, short-lived Table facade per block over the pooled frame (the frame stored
+        # must be that block's own frame)
+        form = (n + len(qs)) % 5 if as_df else (n + len(qs)) % 4
+        src = [iter(blocks), (x for x in blocks), list(blocks), tuple(blocks),
+               ((bt, _fresh(obj)) for bt, obj in blocks)][form]
         # the flag is passed by keyword or positionally (second parameter), alternating by block count
-        b = TableBundle(iter(blocks), as_dataframe=as_df) if n % 2 else TableBundle(iter(blocks), as_df)
+        b = TableBundle(src, as_dataframe=as_df) if n % 2 else TableBundle(src, as_df)
     except Exception as e:  # noqa: BLE001 — the class is reported; model and oracle say which ones are expected
         return {"exc": type(e).__name__}
     order_ids = [id(x) for x in b]
@@ -234,6 +240,12 @@ def impl_run(TableBundle, NotUnique, blocks, as_df, qs, n):
     elif not _iterations_independent(b, order_ids):
         ans.append("ITERATIONS-INTERFERE")
     return ans
+
+
+def _fresh(obj):
+    """a new Table facade over the same frame (Table(tdf).df is tdf); other representations as they are"""
+    from pdtable import Table
+    return Table(obj.df) if hasattr(obj, "df") else obj
 
 
 def _iterations_independent(b, order_ids):
